@@ -139,6 +139,8 @@ def validate_sessions(ctx: Ctx, env: dict, sessions: list[list[dict]], tag: str)
         for i, e in enumerate(s):
             e = dict(e)
             e["i"] = i
+            if "acct" in e and "bank" in e and "cmp" not in e:
+                e["cmp"] = all(gen.flags(e.get(k) or [])[1] for k in ("bank", "branch", "acct"))
             if "t" in e and "judge" not in e:
                 e["judge"], e["cmp"] = gen.flags(e["t"])
                 if "u" in e:
